@@ -545,3 +545,173 @@ Proof.
                                 (tint_continuous Cx Cy Cz Ax Ay Az Bx By Bz al be ca cb)))).
   intro u. symmetry. exact (Ju_as_substitution Cx Cy Cz Ax Ay Az Bx By Bz al be ca cb u Ha Hb).
 Qed.
+
+(* ------------------------------------------------------------------ *)
+(* 7. composition: (B2) modulo the exchange of integrals               *)
+(* ------------------------------------------------------------------ *)
+Lemma dist2_pos Cx Cy Cz x y z : (x, y, z) <> (Cx, Cy, Cz) -> 0 < dist2 Cx Cy Cz x y z.
+Proof.
+  intro Hne. unfold dist2.
+  pose proof (pow2_ge_0 (x - Cx)) as H1. pose proof (pow2_ge_0 (y - Cy)) as H2.
+  pose proof (pow2_ge_0 (z - Cz)) as H3.
+  destruct (Req_dec (x - Cx) 0) as [Ex|Ex]; [|assert (0 < (x - Cx) ^ 2) by (apply pow2_gt_0; exact Ex); lra].
+  destruct (Req_dec (y - Cy) 0) as [Ey|Ey]; [|assert (0 < (y - Cy) ^ 2) by (apply pow2_gt_0; exact Ey); lra].
+  destruct (Req_dec (z - Cz) 0) as [Ez|Ez]; [|assert (0 < (z - Cz) ^ 2) by (apply pow2_gt_0; exact Ez); lra].
+  exfalso. apply Hne. f_equal; [f_equal|]; lra.
+Qed.
+
+(* (i) at the level of the integrand: off the point r = C, the Coulomb integrand IS the u-integral of the kernel *)
+Theorem coulomb_integrand_is_u_integral (Cx Cy Cz Ax Ay Az Bx By Bz al be : R) (ca cb : Shell.comp)
+        (x y z : R) : (x, y, z) <> (Cx, Cy, Cz) ->
+  hint (fun u => coulomb_kernel Cx Cy Cz Ax Ay Az Bx By Bz al be ca cb u x y z)
+       (coulomb_integrand Cx Cy Cz Ax Ay Az Bx By Bz al be ca cb x y z).
+Proof.
+  intro Hne. pose proof (dist2_pos Cx Cy Cz x y z Hne) as Hd.
+  unfold coulomb_kernel, coulomb_integrand.
+  set (f := cprim al Ax Ay Az ca x y z * cprim be Bx By Bz cb x y z).
+  refine (hint_ext _ _ _ _ _ _ (hint_scal f _ _ (inv_sqrt_laplace _ Hd))).
+  - intro u. cbv beta. ring.
+  - reflexivity.
+Qed.
+
+Corollary coulomb_HInt_integrand_eq (Cx Cy Cz Ax Ay Az Bx By Bz al be : R) (ca cb : Shell.comp)
+          (x y z : R) : (x, y, z) <> (Cx, Cy, Cz) ->
+  HInt (fun u => coulomb_kernel Cx Cy Cz Ax Ay Az Bx By Bz al be ca cb u x y z)
+  = coulomb_integrand Cx Cy Cz Ax Ay Az Bx By Bz al be ca cb x y z.
+Proof. intro Hne. apply HInt_correct. now apply coulomb_integrand_is_u_integral. Qed.
+
+(* everything of (B2) except the order of integration, with no hypothesis:
+     int_0^oo [ iterated integral over R^3 of the kernel at u ] du = prim_val *)
+Theorem coulomb_u_then_r_integral_is_prim_val (Cx Cy Cz Ax Ay Az Bx By Bz al be : R) (ca cb : Shell.comp) :
+  0 < al -> 0 < be ->
+  exists J : R -> R,
+    (forall u, gint3 (coulomb_kernel Cx Cy Cz Ax Ay Az Bx By Bz al be ca cb u) (J u)) /\
+    hint J (prim_val RKB Cx Cy Cz Ax Ay Az Bx By Bz al be ca cb).
+Proof.
+  intros Ha Hb. exists (Ju Cx Cy Cz Ax Ay Az Bx By Bz al be ca cb). split.
+  - intro u. now apply gaussian_at_fixed_u.
+  - now apply Ju_integral.
+Qed.
+
+(* (ii), the one step left: the iterated integral over R^3 of F equals the u-integral of the iterated
+   integrals over R^3 of K u — for F r = int_0^oo K u r du (r <> C) *)
+Definition exchange_holds (K : R -> R -> R -> R -> R) (F : R -> R -> R -> R) : Prop :=
+  forall (J : R -> R) (L : R),
+    (forall u, 0 <= u -> gint3 (K u) (J u)) -> hint J L -> gint3 F L.
+
+Theorem coulomb_prim_is_prim_val_modulo_exchange (Cx Cy Cz Ax Ay Az Bx By Bz al be : R)
+        (ca cb : Shell.comp) : 0 < al -> 0 < be ->
+  exchange_holds (coulomb_kernel Cx Cy Cz Ax Ay Az Bx By Bz al be ca cb)
+                 (coulomb_integrand Cx Cy Cz Ax Ay Az Bx By Bz al be ca cb) ->
+  gint3 (fun x y z => cprim al Ax Ay Az ca x y z * cprim be Bx By Bz cb x y z
+                      / sqrt ((x - Cx) ^ 2 + (y - Cy) ^ 2 + (z - Cz) ^ 2))
+        (prim_val RKB Cx Cy Cz Ax Ay Az Bx By Bz al be ca cb).
+Proof.
+  intros Ha Hb Hex.
+  apply (Hex (Ju Cx Cy Cz Ax Ay Az Bx By Bz al be ca cb)).
+  - intros u _. now apply gaussian_at_fixed_u.
+  - now apply Ju_integral.
+Qed.
+
+(* the same with the integrand written through the u-integral from the start *)
+Theorem coulomb_prim_is_prim_val_modulo_exchange_HInt (Cx Cy Cz Ax Ay Az Bx By Bz al be : R)
+        (ca cb : Shell.comp) : 0 < al -> 0 < be ->
+  exchange_holds (coulomb_kernel Cx Cy Cz Ax Ay Az Bx By Bz al be ca cb)
+                 (fun x y z => HInt (fun u => coulomb_kernel Cx Cy Cz Ax Ay Az Bx By Bz al be ca cb u x y z)) ->
+  gint3 (fun x y z =>
+           HInt (fun u => 2 / sqrt PI * (cprim al Ax Ay Az ca x y z * cprim be Bx By Bz cb x y z)
+                          * exp (- u ^ 2 * ((x - Cx) ^ 2 + (y - Cy) ^ 2 + (z - Cz) ^ 2))))
+        (prim_val RKB Cx Cy Cz Ax Ay Az Bx By Bz al be ca cb).
+Proof.
+  intros Ha Hb Hex.
+  apply (Hex (Ju Cx Cy Cz Ax Ay Az Bx By Bz al be ca cb)).
+  - intros u _. now apply gaussian_at_fixed_u.
+  - now apply Ju_integral.
+Qed.
+
+(* the value is determined by the integrand alone: whatever the iterated integral of the Coulomb integrand
+   is, IF the exchange holds it is prim_val *)
+Corollary coulomb_value_modulo_exchange (Cx Cy Cz Ax Ay Az Bx By Bz al be : R) (ca cb : Shell.comp) (l : R) :
+  0 < al -> 0 < be ->
+  exchange_holds (coulomb_kernel Cx Cy Cz Ax Ay Az Bx By Bz al be ca cb)
+                 (coulomb_integrand Cx Cy Cz Ax Ay Az Bx By Bz al be ca cb) ->
+  gint3 (coulomb_integrand Cx Cy Cz Ax Ay Az Bx By Bz al be ca cb) l ->
+  l = prim_val RKB Cx Cy Cz Ax Ay Az Bx By Bz al be ca cb.
+Proof.
+  intros Ha Hb Hex Hl. apply (gint3_unique _ _ _ Hl).
+  exact (coulomb_prim_is_prim_val_modulo_exchange Cx Cy Cz Ax Ay Az Bx By Bz al be ca cb Ha Hb Hex).
+Qed.
+
+(* ------------------------------------------------------------------ *)
+(* 8. the hypotheses are satisfiable                                   *)
+(* ------------------------------------------------------------------ *)
+Example inv_r_hypothesis_satisfiable : exists r, 0 < r /\ hint (fun u => exp (- u ^ 2 * r ^ 2)) (sqrt PI / (2 * r)).
+Proof. exists 1. split; [lra|]. apply inv_r_gaussian_representation. lra. Qed.
+
+Example three_gauss_hypotheses_satisfiable : exists al be w : R, 0 < al /\ 0 < be /\ 0 <= w.
+Proof. exists 1, 1, 0. repeat split; lra. Qed.
+
+Example hint_subst_tau_hypotheses_satisfiable :
+  exists (p : R) (g : R -> R), 0 < p /\ (forall t, continuous g t) /\
+    hint (fun u => dtau p u * g (tau p u)) (RInt g 0 1).
+Proof.
+  exists 1, (fun _ => 1).
+  assert (Hc : forall t : R, continuous (fun _ : R => 1) t) by (intro t; apply continuous_const).
+  split; [lra|]. split; [exact Hc|]. apply hint_subst_tau; [lra | exact Hc].
+Qed.
+
+(* the premises under which [exchange_holds] is applied are satisfied for every Gaussian pair: the hypothesis
+   is used at a non-vacuous instance *)
+Example exchange_premises_satisfied :
+  exists (J : R -> R) (L : R),
+    (forall u, 0 <= u -> gint3 (coulomb_kernel 0 0 0 0 0 0 0 0 0 1 1 (0, 0, 0)%nat (0, 0, 0)%nat u) (J u))
+    /\ hint J L.
+Proof.
+  destruct (coulomb_u_then_r_integral_is_prim_val 0 0 0 0 0 0 0 0 0 1 1 (0, 0, 0)%nat (0, 0, 0)%nat Rlt_0_1 Rlt_0_1)
+    as [J [H1 H2]].
+  exists J, (prim_val RKB 0 0 0 0 0 0 0 0 0 1 1 (0, 0, 0)%nat (0, 0, 0)%nat). split; [|exact H2].
+  intros u _. apply H1.
+Qed.
+
+(* the predicate [exchange_holds] itself is satisfiable (trivial kernel); for the Gaussian kernel its
+   satisfiability is equivalent to the conclusion of the theorem, i.e. it IS the trusted statement *)
+Example exchange_holds_satisfiable_abstract : exchange_holds (fun _ _ _ _ => 0) (fun _ _ _ => 0).
+Proof.
+  intros J L HJ HL.
+  assert (Hz : gint3 (fun _ _ _ : R => 0) 0).
+  { refine (gint3_ext _ _ _ _ _ _ (gint3_prod _ _ _ _ _ _ gint_zero gint_zero gint_zero));
+      [intros; ring | ring]. }
+  assert (EJ : forall u, 0 <= u -> J u = 0).
+  { intros u Hu. exact (gint3_unique _ _ _ (HJ u Hu) Hz). }
+  assert (EL : L = 0).
+  { apply (hint_unique J); [exact HL|].
+    rewrite hint_spelled_out. intro eps. exists 0. intros b Hb. exists 0. split.
+    - apply (is_RInt_ext (fun _ : R => 0)).
+      + intros x Hx. symmetry. apply EJ. rewrite Rmin_left in Hx by lra. lra.
+      + apply is_RInt_zero.
+    - rewrite Rminus_0_r, Rabs_R0. apply cond_pos. }
+  rewrite EL. exact Hz.
+Qed.
+
+Lemma exchange_equivalent_to_conclusion (Cx Cy Cz Ax Ay Az Bx By Bz al be : R) (ca cb : Shell.comp) :
+  0 < al -> 0 < be ->
+  (exchange_holds (coulomb_kernel Cx Cy Cz Ax Ay Az Bx By Bz al be ca cb)
+                  (coulomb_integrand Cx Cy Cz Ax Ay Az Bx By Bz al be ca cb)
+   <-> gint3 (coulomb_integrand Cx Cy Cz Ax Ay Az Bx By Bz al be ca cb)
+             (prim_val RKB Cx Cy Cz Ax Ay Az Bx By Bz al be ca cb)).
+Proof.
+  intros Ha Hb. split.
+  - intro Hex. exact (coulomb_prim_is_prim_val_modulo_exchange Cx Cy Cz Ax Ay Az Bx By Bz al be ca cb Ha Hb Hex).
+  - intros Hv J L HJ HL.
+    assert (EJ : forall u, 0 <= u -> J u = Ju Cx Cy Cz Ax Ay Az Bx By Bz al be ca cb u).
+    { intros u Hu. apply (gint3_unique _ _ _ (HJ u Hu)). now apply gaussian_at_fixed_u. }
+    assert (EL : L = prim_val RKB Cx Cy Cz Ax Ay Az Bx By Bz al be ca cb).
+    { apply (hint_unique J); [exact HL|].
+      pose proof (Ju_integral Cx Cy Cz Ax Ay Az Bx By Bz al be ca cb Ha Hb) as HJu.
+      rewrite hint_spelled_out in HJu |- *. intro eps. destruct (HJu eps) as [M HM].
+      exists (Rmax M 0). intros b Hb'. destruct (HM b) as [y [Hy Hd]]; [pose proof (Rmax_l M 0); lra|].
+      exists y. split; [|exact Hd].
+      apply (is_RInt_ext (Ju Cx Cy Cz Ax Ay Az Bx By Bz al be ca cb)); [|exact Hy].
+      intros x Hx. symmetry. apply EJ. pose proof (Rmax_r M 0). rewrite Rmin_left in Hx by lra. lra. }
+    rewrite EL. exact Hv.
+Qed.
